@@ -106,14 +106,8 @@ instance (S : Sem) (n : Nat) (cb : List String) (cfg : Config Entry) : Decidable
 
 /-! ### the instance the driver runs -/
 
-/-- `Exclude.sem fs` with `Platform.process_include` applied to `-include` files as well
-(`elif file_platform.process_include(include_file)` in `find`): a forced include that is on the
-platform's once-list is not processed -/
-def semC (fs : FSMap) : Sem :=
-  { sem fs with
-    findInc := fun p inc dir =>
-      match p.findInclude fs inc dir false with
-      | (some f, p2) => if p2.skip.contains f then (none, p2) else (some f, p2)
-      | (none, p2) => (none, p2) }
+/-- the semantics op `c08find` runs for the field `cached`: `Exclude.sem fs`, the same record op `c10find` runs
+(`Platform.process_include` applies to `-include` files as well: `Exclude.findForced`) -/
+def semC (fs : FSMap) : Sem := sem fs
 
 end CbiVerif.FindCache
